@@ -151,6 +151,37 @@ def formula_reading(text):
     return txt(tree)
 
 
+def formula_minimal(text):
+    """the expression re-written with exactly the parentheses the documented FORMULA grammar needs
+    (precedence: comparisons < + - < * / < ** < unary sign; binary operators left-associative):
+    redundant parentheses do not belong to the name of a term"""
+    from formulae.scanner import Scanner
+
+    from vf.oracles import refparse
+
+    toks = Scanner(text).scan(add_intercept=False)
+    tree = refparse.ref_parse(toks)
+    PR = {"==": 1, "!=": 1, "<": 1, "<=": 1, ">": 1, ">=": 1, "+": 2, "-": 2, "*": 3, "/": 3, "**": 4}
+
+    def txt(n):
+        """returns (text, precedence)"""
+        k = n[0]
+        if k in ("var", "lit"):
+            return toks[n[1]].lexeme, 9
+        if k == "un":
+            t, p = txt(n[2])
+            return toks[n[1]].lexeme + (f"({t})" if p < 5 else t), 5
+        if k == "bin":
+            op = toks[n[1]].lexeme
+            p = PR[op]
+            lt, lp = txt(n[2])
+            rt, rp = txt(n[3])
+            return (f"({lt})" if lp < p else lt) + f" {op} " + (f"({rt})" if rp <= p else rt), p
+        raise ValueError(n)
+
+    return txt(tree)[0]
+
+
 def cases(tier):
     ts = trees(tier)
     out = [("expr", i) for i in range(len(ts))]
@@ -293,10 +324,12 @@ def harness(env, case):
     # normalise outside string literals only (their content is preserved verbatim)
     parts = re.split(r"('[^']*'|\"[^\"]*\")", call)
     expected = "".join(p if i % 2 else norm(p) for i, p in enumerate(parts))
+    if kind == "expr":
+        expected = f"I({formula_minimal(text)})"  # redundant parentheses are not part of the name
     if not env.prove(len(names) == 1, "one term", info):
         return
     strip = lambda t: t.replace("(", "").replace(")", "")  # noqa
-    env.prove(names[0] == expected, "term name == source text normalised to single spaces (quotes and parentheses preserved)",
+    env.prove(names[0] == expected, "term name == source text normalised to single spaces (quotes and necessary parentheses preserved)",
               dict(info, observed_name=names[0], expected_name=expected, only_parentheses_differ=(names[0] != expected and strip(names[0]) == strip(expected))))
     # whitespace variants are the same term
     if kind == "expr":
@@ -364,7 +397,12 @@ def name_collisions(rep, tier):
         name = [c.name for c in m.common_terms if c.name != "Intercept"][0]
         n += 1
         if name in seen and seen[name] != text:
-            sig = {"kind": "collision", "what": "different calls share one term name", "pair_only_differs_in_parentheses": seen[name].replace("(", "").replace(")", "") == text.replace("(", "").replace(")", "")}
+            try:
+                same_formula_tree = formula_minimal(seen[name]) == formula_minimal(text)
+            except Exception:  # noqa
+                same_formula_tree = False
+            sig = {"kind": "collision", "what": "different calls share one term name", "pair_only_differs_in_parentheses": seen[name].replace("(", "").replace(")", "") == text.replace("(", "").replace(")", ""),
+                   "same_tree_under_the_formula_grammar": same_formula_tree}
             rep.violations.append({"label": sig["what"], "signature": sig, "replay": {"a": seen[name], "b": text, "name": name}, "reproduced": True, "detail": f"I({seen[name]}) and I({text}) are both named {name}"})
         else:
             seen.setdefault(name, text)
